@@ -1,7 +1,8 @@
 CONSTANTS
   Mode = "C04"
-  CyclesFromEveryNode = FALSE
-  RefDepthChecked = FALSE
+  CyclesFromEveryNode = TRUE
+  RefDepthChecked = TRUE
+  ExitLinked = TRUE
 SPECIFICATION TraceSpec
 CONSTRAINT HWM
 POSTCONDITION Post
